@@ -112,7 +112,8 @@ def _bounds(variant, ctxfields, wmin, wmax, eps, unreachable=()):
             ("exactly-three-keys", "len(result) == 3"),
         ],
         raises="none",
-        unreachable_ok=list(unreachable),
+        # without a configured epsilon the default 0.0 is used: the `if eps < 0: eps = 0.0` clip cannot fire
+        unreachable_ok=list(unreachable) + (["eps = 0.0"] if eps == "0.0" else []),
     )
 
 
